@@ -390,11 +390,13 @@ class P(Prop):
         (M, "TV.C02.operate_assign_existing_number", "T3c': 'lhs=<number>' overwrites an existing feature (fix 79feaf2)"),
         (M, "TV.C02.operate_assign_coordinate_partial", "T3d: 'x=e' / 'y=e' / 'z=e' with a vector value writes the coordinate and leaves the feature table untouched (fix 3613032)"),
         (M, "TV.C02.operate_show_value", "T3: composition - parse the printed statement with makeRPN's table, run the machine, purge: value = tree semantics, track unchanged"),
+        (M, "TV.C02.makeRPN_chars_show", "T2': character-level makeRPN (the definition the driver runs, fuel = string length) returns the postfix form of every printed tree with plain atoms"),
+        (M, "TV.C02.operate_string_value", "T3': from the rewritten string '#output=e' on (makeRPN on characters, __double_prime, stack machine, fetch, purge) operate returns the tree semantics and leaves the track as it was"),
         (M, "TV.C02.operator_objects_agree", "T4: operator objects applied directly return the tree semantics of the one-node expression (a.b, a.number, number.a, f{a})"),
     ]
     partial = ["operate_assign_coordinate_partial: proved for right-hand sides whose value is a vector; a pure number on the right of x=/y=/z= raises KeyError in the code (known finding coordinate-assigned-constant)"]
     open_statements = [
-        "the character-level rewriting chain (preprocess) and character-level makeRPN are tied to the token-level theorems by the correspondence only (streams rpn/str/expr), not by a theorem",
+        "the character-level rewriting chain (preprocess: replace chains, reflexive operators, unary signs, f( -> f@(, '#output = ' prefix with its spaces) is tied to the theorems by the correspondence only (streams str/expr), not by a theorem; the theorems start from the rewritten string",
         "tree semantics = ordinary arithmetic: the node functions are the operator classes as coded (x/number is x*(1/number), Divider gives NaN on a zero denominator); their agreement with exact real arithmetic is sampled by the transfer check against the independent Python oracle, not proved",
         "error propagation (when the tree semantics is an error the machine raises the same error) is exercised by the correspondence, not proved",
     ]
